@@ -477,6 +477,8 @@ pub fn run(root: &str, outdir: &str) -> i32 {
     let rows: Vec<String> = bf.iter().map(|(f, p, k)| format!("  ({}, [{}], {})", lean_str(f), p.chars().map(|c| (c as u32).to_string()).collect::<Vec<_>>().join(", "), if k == "index" { 0 } else { 1 })).collect();
     writeln!(t, "{}\n]", rows.join(",\n")).unwrap();
     writeln!(t, "\ndef identNames : List String := [{}]", names.iter().map(|n| lean_str(n)).collect::<Vec<_>>().join(", ")).unwrap();
+    writeln!(t, "\n/-- the same names as code points (the kernel compares numbers, not string literals) -/\ndef identCodes : List (List Nat) := [{}]",
+        names.iter().map(|n| format!("[{}]", n.chars().map(|c| (c as u32).to_string()).collect::<Vec<_>>().join(", "))).collect::<Vec<_>>().join(", ")).unwrap();
     writeln!(t, "\nend Educe.Generated").unwrap();
     std::fs::write(Path::new(outdir).join("Templates.lean"), t).unwrap();
 
